@@ -42,7 +42,7 @@ def extract_str_template(src, rep):
     fbody = normalize.unroll_const_loops(f.node).body
 
     def run(dec):
-        it = strlang.Interp(dec, cls='PkgRelation', depth=6)
+        it = strlang.Interp(dec, cls='PkgRelation', depth=6, methods=strlang.class_helpers(f.module, 'PkgRelation', skip=('str', '__str__')))
         env = {pname: rels}
         r = it.run(fbody, env)
         if r is None or r[0] != 'return':
